@@ -13,6 +13,7 @@ Tightness of the tightened bounds is NOT asserted (floor/ceil/round of the divis
 """
 import itertools
 
+from vf import build
 from vf.core import Part, Violation, call
 from vf.props import polycommon as pc
 
@@ -195,9 +196,41 @@ def check(case, ev):
     ev.case(case, nontrivial, cl)
 
 
+def check_sparse(case, ev):
+    """large sparse systems with pairwise disjoint rows (>= 1000 matrix entries): exact per-column ranges row by row"""
+    poly = call(build.polyhedron, case, what="constructing the polyhedron")
+    bounds = [(v[1], v[2]) for v in case["vars"]]
+    n = len(bounds)
+    truth = pc.block_truth(case)
+    tb = pc.as_list(call(poly.tighten_column_bounds, what="tighten_column_bounds"), "tighten_column_bounds()", (2, n))
+    tightened = False
+    for j, (lo, hi) in enumerate(bounds):
+        if tb[0][j] < lo or tb[1][j] > hi:
+            raise Violation(f"tighten_column_bounds() widens column {j}: {(tb[0][j], tb[1][j])} vs declared {(lo, hi)}")
+        if truth is not None and (tb[0][j] > truth[j][0] or tb[1][j] < truth[j][1]):
+            raise Violation(f"tighten_column_bounds() cuts off solutions: column {j} gets {(tb[0][j], tb[1][j])} but takes values "
+                            f"{truth[j]} in the solution set; row {[r for r in case['m'] if r[1 + j]]} declared {(lo, hi)}")
+        if tb[0][j] > tb[1][j] and truth is not None:
+            raise Violation(f"tighten_column_bounds() reports an inverted pair for column {j} although the system is feasible")
+        tightened = tightened or (tb[0][j], tb[1][j]) != (lo, hi)
+    rb = pc.as_list(call(poly.row_bounds, what="row_bounds"), "row_bounds()", (len(case["m"]), 2))
+    for i, row in enumerate(case["m"]):
+        want = (pc.row_min(row[1:], bounds) - row[0], pc.row_max(row[1:], bounds) - row[0])
+        if (rb[i][0], rb[i][1]) != want:
+            raise Violation(f"row_bounds() row {i}: {(rb[i][0], rb[i][1])}, exact range {want}")
+    nrc = pc.as_list(call(lambda: poly.n_row_combinations, what="n_row_combinations"), "n_row_combinations", (len(case["m"]),))
+    for i, row in enumerate(case["m"]):
+        want = pc.prod(bounds[j][1] - bounds[j][0] + 1 for j, c in enumerate(row[1:]) if c)
+        if nrc[i] != want:
+            raise Violation(f"n_row_combinations row {i}: {nrc[i]}, direct count {want}")
+    ev.case(case, tightened, ["sparse_large", "feasible" if truth is not None else "infeasible"])
+
+
 def parts(tier):
     g = 2048 if tier == "quick" else 20000
     return [
+        Part("chains", strategy=lambda t: pc.chain_case(guard=g), check=check, quick=(1, 400), thorough=(2, 5000)),
+        Part("sparse_large", strategy=lambda t: pc.sparse_block_case(), check=check_sparse, quick=(2, 120), thorough=(4, 1500)),
         Part("small", strategy=lambda t: pc.system_case(profile="small", nonunit=True, guard=g), check=check,
              quick=(3, 1500), thorough=(6, 12000)),
         Part("wide", strategy=lambda t: pc.system_case(profile="wide", nonunit=True, guard=g), check=check,
